@@ -22,6 +22,37 @@ C15 driver: interprets the *generated* descriptor table on histories sent by the
 structure St where
   ci : Option ClassInfo := none
   w : World := ⟨0, fun _ => { attrs := fun _ => 0 }, []⟩
+  /-- objects created since `new` and attribute names in play: the finite support of the heap -/
+  uids : List Nat := []
+  anames : List String := []
+
+/-- Re-materialise the heap (a chain of closures after a few hundred updates) as a finite table.  Extensionally the
+same function on the known objects / attribute names; everything else keeps the default of a fresh heap.  Pure
+performance measure of the driver; the operations themselves are the model's definitions. -/
+def St.normalise (st : St) : St :=
+  let rows := st.uids.map fun u =>
+    let o := st.w.heap u
+    (u, st.anames.map (fun a => (a, o.attrs a)), o.parent, o.types)
+  let heap : Heap := fun u =>
+    match rows.find? (·.1 == u) with
+    | some (_, kv, p, t) => { attrs := fun a => ((kv.find? (·.1 == a)).map (·.2)).getD 0, parent := p, types := t }
+    | none => { attrs := fun _ => 0 }
+  { st with w := { st.w with heap := heap } }
+
+def descAttrs (cls : String) : List String :=
+  (table.filter (·.cls == cls)).foldl (fun acc d =>
+    let g := match d.getter with
+      | .each a => [a]
+      | _ => []
+    let s := match d.setter with
+      | some (.broadcast s) => s.seqAttr :: (match s.orelse with
+          | .broadcast a _ _ => [a]
+          | _ => [])
+      | _ => []
+    (g ++ s).foldl (fun acc a => if acc.contains a then acc else a :: acc) acc) ["name"]
+
+def addNames (xs : List String) (ys : List String) : List String :=
+  ys.foldl (fun acc a => if acc.contains a then acc else a :: acc) xs
 
 def errName : Err → String
   | .valueError => "ValueError"
@@ -74,7 +105,7 @@ def step' (st : St) (ts : List String) : St × String :=
   match ts with
   | ["new", c, g] =>
     match classes.find? (·.name == c) with
-    | some ci => ({ ci := some ci, w := ⟨pN g, fun _ => { attrs := fun _ => 0 }, []⟩ }, "ok")
+    | some ci => ({ ci := some ci, w := ⟨pN g, fun _ => { attrs := fun _ => 0 }, []⟩, uids := [], anames := descAttrs ci.name }, "ok")
     | none => (st, "nocls")
   | ["mk", u, tys, ats] =>
     let kv := (csv ats).filterMap fun p =>
@@ -83,7 +114,10 @@ def step' (st : St) (ts : List String) : St × String :=
       | _ => none
     let o : Obs := { attrs := fun a => ((kv.find? (·.1 == a)).map (·.2)).getD 0, parent := none, types := csv tys }
     let uu := pN u
-    ({ st with w := { st.w with heap := fun x => if x = uu then o else st.w.heap x } }, "ok")
+    let st' : St := { st with w := { st.w with heap := fun x => if x = uu then o else st.w.heap x },
+                              uids := if st.uids.contains uu then st.uids else uu :: st.uids,
+                              anames := addNames st.anames (kv.map (·.1)) }
+    (st'.normalise, "ok")
   | _ =>
     match st.ci with
     | none => (st, "nogroup")
@@ -91,19 +125,19 @@ def step' (st : St) (ts : List String) : St × String :=
       match ts with
       | ["add", u] =>
         let r := addObserver ci st.w (pN u)
-        ({ st with w := r.1 }, res r)
+        (({ st with w := r.1 } : St).normalise, res r)
       | "set" :: name :: o :: items =>
         match findDesc table ci.name name with
         | none => (st, "nodesc")
         | some d =>
           let r := setAttr d st.w { obj := pObj o, items := items.map pObj }
-          ({ st with w := r.1 }, res r)
+          (({ st with w := r.1 } : St).normalise, res r)
       | "setm" :: name :: k :: us =>
         match findDesc table ci.name name with
         | none => (st, "nodesc")
         | some d =>
           let r := setMembers table ci d st.w (pKind k) (us.map pN)
-          ({ st with w := r.1 }, res r)
+          (({ st with w := r.1 } : St).normalise, res r)
       | ["get", name] =>
         match findDesc table ci.name name with
         | none => (st, "nodesc")
@@ -114,7 +148,8 @@ def step' (st : St) (ts : List String) : St × String :=
       | ["item", "x"] => (st, showOut (getItem ci st.w .other))
       | ["len"] => (st, toString (groupLen st.w))
       | ["observe"] => (st, showOut (.objs (observe st.w)))
-      | ["poke", u, a, x] => ({ st with w := { st.w with heap := st.w.heap.setAttr (pN u) a (pN x) } }, "ok")
+      | ["poke", u, a, x] =>
+        (({ st with w := { st.w with heap := st.w.heap.setAttr (pN u) a (pN x) }, anames := addNames st.anames [a] } : St).normalise, "ok")
       | ["snap", ats] =>
         (st, "n=" ++ toString (groupLen st.w) ++ " " ++ " ".intercalate (st.w.members.map (showObj st.w (csv ats))))
       | ["obj", u, ats] => (st, showObj st.w (csv ats) (pN u))
